@@ -21,6 +21,8 @@ theorem triage_abort {ρ : Type} (cfg : Cfg) (u : List Nat → Res ρ) (v : Nat 
   rw [triage_eq_bytes _ _ _ _ (mkPdu_ok _ _), mkPdu_bytes, abort_image _ _ _ _ _ hr]
   unfold triageB
   have hcmd : bitsOf 128 5 3 = 4 := by decide
+  rw [unpackCoeHeaders_cons _ _ _ _ _ _ _ _ _ (by rw [bits_type]; exact validMbx3)
+    (by rw [show (32 : Nat) = 16 * 2 from rfl, bits_svc 2 (by decide)]; exact validSvc2)]
   rw [unpackHeadersRaw_cons _ _ _ _ _ _ _ _ _ _ _ _ _ (by rw [bits_type]; exact validMbx3)
     (by rw [show (32 : Nat) = 16 * 2 from rfl, bits_svc 2 (by decide)]; exact validSvc2)
     (by rw [hcmd]; exact validCmd4)]
@@ -59,6 +61,8 @@ theorem triage_foreign_expedited (cfg : Cfg) (c index sub rIndex rSub : Nat) (co
     simp
   rw [triage_eq_bytes _ _ _ _ (mkPdu_ok _ _), mkPdu_bytes, himg]
   unfold triageB
+  rw [unpackCoeHeaders_cons _ _ _ _ _ _ _ _ _ (by rw [bits_type]; exact validMbx3)
+    (by rw [show (48 : Nat) = 16 * 3 from rfl, bits_svc 3 (by decide)]; exact validSvc3)]
   rw [unpackHeadersRaw_cons _ _ _ _ _ _ _ _ _ _ _ _ _ (by rw [bits_type]; exact validMbx3)
     (by rw [show (48 : Nat) = 16 * 3 from rfl, bits_svc 3 (by decide)]; exact validSvc3)
     (by rw [hb.2.2.2.2]; exact validCmd2)]
@@ -83,54 +87,23 @@ theorem emergency_image (rmbx c code reg : Nat) (data : List Nat) (hr : 16 ≤ r
   simp only [emergencyMessage, frame, le16, List.length_append, List.length_cons, List.length_nil, h5]
   simp
 
-theorem unpackHeadersRaw_cons_badcmd (l0 l1 a2 a3 a4 a5 a6 a7 a8 a9 a10 a11 : Nat) (tl : List Nat)
-    (hty : validDisc mailboxType (bitsOf a5 0 4) = true) (hsvc : validDisc coeService (bitsOf a7 4 4) = true)
-    (hcmd : validDisc coeCommand (bitsOf a8 5 3) = false) :
-    unpackHeadersRaw (l0 :: l1 :: a2 :: a3 :: a4 :: a5 :: a6 :: a7 :: a8 :: a9 :: a10 :: a11 :: tl) = .err .wireInvalid := by
-  simp [unpackHeadersRaw, unpackMailboxHeader, unpackService, unpackCommand, LEN_HeadersRaw, LEN_MailboxHeader,
-    validDisc_priority, hty, hsvc, hcmd]
-
-/-- An emergency message (error code `code`) in place of the response is never reported as the property demands:
-    * if bits 5..7 of the error code's low byte are not a `CoeCommand` value, the header does not decode:
-      `Error::Wire(InvalidValue)`;
-    * otherwise, with the assertion compiled in, the client panics;
-    * otherwise it returns an emergency error — whose contents are read 4 bytes too far into the message. -/
+/-- An emergency message in place of the response is reported as `MailboxError::Emergency` with the error code and
+    error register the device sent, whatever the code's bytes are. -/
 theorem triage_emergency {ρ : Type} (cfg : Cfg) (u : List Nat → Res ρ) (v : Nat → Nat → Bool) (c code reg : Nat)
-    (data : List Nat) (hr : 20 ≤ cfg.rmbx) :
-    (validDisc coeCommand (bitsOf (code % 256) 5 3) = false →
-      triage cfg u v (mkPdu cfg (image cfg.rmbx (emergencyMessage c code reg data))) = .err .wireInvalid) ∧
-    (validDisc coeCommand (bitsOf (code % 256) 5 3) = true → cfg.assertEmergency = true →
-      Res.isPanic (triage cfg u v (mkPdu cfg (image cfg.rmbx (emergencyMessage c code reg data)))) = true) ∧
-    (validDisc coeCommand (bitsOf (code % 256) 5 3) = true → cfg.assertEmergency = false →
-      ∃ c' r', triage cfg u v (mkPdu cfg (image cfg.rmbx (emergencyMessage c code reg data))) =
-        .err (.emergency c' r')) := by
-  rw [triage_eq_bytes _ _ _ _ (mkPdu_ok _ _), mkPdu_bytes, emergency_image _ _ _ _ _ (by omega)]
+    (data : List Nat) (hr : 16 ≤ cfg.rmbx) (hc : code < 65536) (hreg : reg < 256) :
+    triage cfg u v (mkPdu cfg (image cfg.rmbx (emergencyMessage c code reg data))) = .err (.emergency code reg) := by
+  rw [triage_eq_bytes _ _ _ _ (mkPdu_ok _ _), mkPdu_bytes, emergency_image _ _ _ _ _ hr]
   unfold triageB
   have hsvc : bitsOf 16 4 4 = 1 := by decide
   have h5 : ((data ++ zeros 5).take 5).length = 5 := by simp [zeros]
-  obtain ⟨d0, rest, hd⟩ : ∃ d0 rest, (data ++ zeros 5).take 5 = d0 :: rest := by
-    cases hx : (data ++ zeros 5).take 5 with
-    | nil => rw [hx] at h5; cases h5
-    | cons d0 rest => exact ⟨d0, rest, rfl⟩
-  have hrest : rest.length = 4 := by rw [hd] at h5; simpa using h5
-  rw [hd]
-  simp only [List.cons_append]
-  refine ⟨fun hv => ?_, fun hv ha => ?_, fun hv ha => ?_⟩
-  · rw [unpackHeadersRaw_cons_badcmd _ _ _ _ _ _ _ _ _ _ _ _ _ (by rw [bits_type]; exact validMbx3)
-      (by rw [hsvc]; decide) hv]
-    rfl
-  · rw [unpackHeadersRaw_cons _ _ _ _ _ _ _ _ _ _ _ _ _ (by rw [bits_type]; exact validMbx3)
-      (by rw [hsvc]; decide) hv]
-    simp [ha, hsvc, svcEmergency_eq]
-  · rw [unpackHeadersRaw_cons _ _ _ _ _ _ _ _ _ _ _ _ _ (by rw [bits_type]; exact validMbx3)
-      (by rw [hsvc]; decide) hv]
-    have hlen : ¬ (List.drop LEN_HeadersRaw
-        (10 :: 0 :: 0 :: 0 :: 0 :: (3 + 16 * (c % 8)) :: 0 :: 16 :: (code % 256) :: (code / 256 % 256) :: (reg % 256) ::
-          d0 :: (rest ++ zeros (cfg.rmbx - 16)))).length < LEN_EmergencyData := by
-      simp [LEN_HeadersRaw, LEN_EmergencyData, zeros, hrest]
-      omega
-    simp only [Res.bind_ok, ha, hsvc, svcEmergency_eq, Bool.false_and, Bool.false_eq_true, if_false, beq_self_eq_true,
-      if_true, unpackEmergency, if_neg hlen]
-    exact ⟨_, _, rfl⟩
+  rw [unpackCoeHeaders_cons _ _ _ _ _ _ _ _ _ (by rw [bits_type]; exact validMbx3) (by rw [hsvc]; decide)]
+  have hlen : ¬ (List.drop LEN_CoeHeadersRaw
+      (10 :: 0 :: 0 :: 0 :: 0 :: (3 + 16 * (c % 8)) :: 0 :: 16 :: (code % 256) :: (code / 256 % 256) :: (reg % 256) ::
+        ((data ++ zeros 5).take 5 ++ zeros (cfg.rmbx - 16)))).length < LEN_EmergencyData := by
+    simp [LEN_CoeHeadersRaw, LEN_EmergencyData, zeros]
+  simp only [Res.bind_ok, hsvc, svcEmergency_eq, beq_self_eq_true, if_true, unpackEmergency, if_neg hlen]
+  simp only [LEN_CoeHeadersRaw, List.drop_succ_cons, List.drop_zero, rd16, List.getD_cons_zero, List.getD_cons_succ]
+  have e1 : code % 256 + 256 * (code / 256 % 256) = code := by omega
+  rw [e1, Nat.mod_eq_of_lt hreg]
 
 end Ec.Coe
